@@ -82,8 +82,8 @@ def r1_eq_total(rep, ctx):
                             "%s can raise instead of answering: it uses `other.%s` where other may be: %s, which does not define it%s"
                             % (root, u.need, show_state(u.state), via), node=u.node, fn=u.fn,
                             facts={"root": root, "chain": list(u.chain), "state": show_state(u.state)})
-    rep.floor("C08.R1", "__eq__/__ne__ roots", n_roots, 9)
-    rep.floor("C08.R1", "uses of other", n_uses, 20)
+    rep.floor("C08.R1", "__eq__/__ne__ roots", n_roots, 7)
+    rep.floor("C08.R1", "uses of other", n_uses, 11)
 
 
 # ------------------------------------------------------------------------------------------------
@@ -162,7 +162,7 @@ def r2_same_projection(rep, ctx):
                       "%s.__lt__ reads %s of other but __eq__ reads %s" % (cname, sorted(raw_l), sorted(pe)), fn=lt)
         else:
             raise AnalysisError("%s: cannot classify how __lt__ (%s) and __eq__ (%s) project `other`" % (cname, sorted(pl), sorted(pe)))
-    rep.floor("C08.R2", "total_ordering classes", n, 3)
+    rep.floor("C08.R2", "total_ordering classes", n, 1)
 
 
 # ------------------------------------------------------------------------------------------------
@@ -209,7 +209,7 @@ def r3_orientation(rep, ctx):
             rep.check(self_side and other_side, "C08.R3", key,
                       "self's stored value < other.GetValue(self.unit): both amounts are expressed in self's unit before comparing",
                       "; ".join(why) + ": amounts in different units are compared as bare numbers or in the wrong orientation", node=r, fn=fn)
-    rep.floor("C08.R3", "__lt__ returns", n, 2)
+    rep.floor("C08.R3", "__lt__ returns", n, 1)
 
 
 # ------------------------------------------------------------------------------------------------
@@ -242,7 +242,7 @@ def r4_hash(rep, ctx):
         rep.check(not extra, "C08.R4", "%s:hash-subset-of-eq" % cname,
                   "%s.__hash__ reads %s, all of which __eq__ compares" % (cname, sorted(fh)),
                   "%s.__hash__ reads %s which __eq__ does not compare: equal objects can have different hashes" % (cname, sorted(extra)), fn=hs)
-    rep.floor("C08.R4", "classes defining __eq__ and __hash__ together", n, 2)
+    rep.floor("C08.R4", "classes defining __eq__ and __hash__ together", n, 1)
 
 
 # ------------------------------------------------------------------------------------------------
@@ -303,4 +303,4 @@ def r5_type_error(rep, ctx):
                   "differing quantity types must-raise TypeError and every comparison is dominated by the equal-quantity-type outcome",
                   "%s.__lt__: %s" % (cname, "; ".join(w for w, c in (("the differing-types branch does not always raise", not must), ("it does not raise TypeError", not raises_type_error),
                                                                        ("a comparison is reachable without passing the guard", not dominated)) if c)), node=cfg.ast[nid], fn=fn)
-    rep.floor("C08.R5", "__lt__ methods", n, 2)
+    rep.floor("C08.R5", "__lt__ methods", n, 1)
